@@ -5,33 +5,10 @@
 (* Anchors: src/ops.rs Clamp, IsBetween, Wrap (wrapped, wrapped_between,   *)
 (* pingpong, delta_angle), Lerp for integers, vector lifts in src/vec.rs.   *)
 (*                                                                         *)
-(* PANIC is the outcome "the call panics"; documented panics are part of   *)
-(* the specification, undocumented ones (arithmetic overflow) are not, so  *)
-(* an implementation that overflows simply disagrees with these operators. *)
+(* The C17 operators (PANIC, Clamp, IsBetween, WrapBetween, Wrapped,       *)
+(* PingPong, DeltaAngle) live in VekOpsCore, which this module extends.    *)
 (***************************************************************************)
-EXTENDS VekNum
-
-PANIC == 999999
-
-\* C17 | src/ops.rs:119-173 clamped / is_between: panic iff lower > upper
-Clamp(x, lo, hi) == IF lo > hi THEN PANIC
-                    ELSE IF x < lo THEN lo ELSE IF x > hi THEN hi ELSE x
-IsBetween(x, lo, hi) == IF lo > hi THEN PANIC
-                        ELSE IF lo <= x /\ x <= hi THEN 1 ELSE 0
-
-\* C17 | src/ops.rs:432-545.  "the unique r in [lo,hi) congruent to x"
-WrapBetweenDecl(x, lo, hi) == CHOOSE r \in lo .. (hi - 1) : (r - x) % (hi - lo) = 0
-WrapBetweenOk(lo, hi) == lo < hi /\ lo >= 0 /\ hi > 0        \* documented preconditions
-WrapBetween(x, lo, hi) == IF ~WrapBetweenOk(lo, hi) THEN PANIC
-                          ELSE lo + ((x - lo) % (hi - lo))   \* closed form; = Decl by MC_Ops
-Wrapped(x, u) == IF u <= 0 THEN PANIC ELSE x % u
-\* triangle wave of period 2u with values in 0..u
-PingPong(x, u) == IF u <= 0 THEN PANIC
-                  ELSE LET r == x % (2 * u) IN IF r <= u THEN r ELSE 2 * u - r
-\* shortest signed difference, in units where a full turn is `turn` (even):
-\* result in (-turn/2, turn/2], congruent to target - self
-DeltaAngle(self, target, turn) == LET n == (target - self) % turn
-                                  IN IF 2 * n > turn THEN n - turn ELSE n
+EXTENDS VekNum, VekOpsCore
 
 \* C12 | src/ops.rs:355-396 integer Lerp: the real-valued interpolation rounded to
 \* nearest, ties away from zero; factor t is an exact rational.
